@@ -106,7 +106,8 @@ pub fn run(args: &Args, tier: &str, seed: u64, backend: &str) -> Report {
                                 let events_before = srv.log.lock().unwrap().len();
                                 rep_m.lock().unwrap().seen("target_schemes", scheme);
                                 let uri = format!("{scheme}://localhost:{}/case/{id}/ipp/print", srv.port);
-                                let ccfg = ClientCfg { ignore_tls: ignore, ca: root_bytes(root), timeout_ms: Some(30_000), ..ClientCfg::default() };
+                                // cells with nothing configured go through the plain constructors (IppClient::new / AsyncIppClient::new): no timeout there
+                                let ccfg = ClientCfg { ignore_tls: ignore, ca: root_bytes(root), timeout_ms: if ignore.is_none() && root == "none" { None } else { Some(30_000) }, ..ClientCfg::default() };
                                 let mut req = mirror::to_ipp(&request(n));
                                 *req.payload_mut() = ipp::payload::IppPayload::new(std::io::Cursor::new(b"SECRET-DOCUMENT".to_vec()));
                                 let result = match kind {
